@@ -23,6 +23,7 @@ Proof.
   - eapply step_ap_raftdone; eauto.
   - eapply step_ap_trigger_before; eauto.
   - eapply step_ap_trigger_after; eauto.
+  - eapply step_ck_flush; eauto.
   - eapply step_ck_save_before; eauto.
   - eapply step_ck_save_after; eauto.
   - eapply step_ck_purge_before; eauto.
@@ -47,6 +48,7 @@ Proof.
   - eapply step_rs_removed; eauto.
   - eapply step_rs_copied; eauto.
   - eapply step_rc_restored; eauto.
+  - eapply step_rs_marker_gone; eauto.
   - eapply step_rc_replay; eauto.
 Qed.
 
@@ -152,15 +154,15 @@ Qed.
 (* from the state right after a process death of a state that satisfies the invariant, the events of startRaft are
    enabled one after the other up to the running node: snapshot chosen, engine restored from its checkpoint,
    WAL read back and replayed from the snapshot index; no step needs a manual repair *)
-Theorem restart_succeeds : forall c s,
-  Inv c s -> rc s = RcStart ->
+Lemma restart_succeeds_np : forall c s,
+  Inv c s -> rc s = RcStart -> restore_pending s = false ->
   exists evs s', run c s evs = Ok s' /\ running s' = true
     /\ applied s' = newest (segs s) /\ engine s' = Some (range 0 (newest (segs s)))
     /\ range (applied s') (rs_last s') = range (newest (segs s)) (rs_last s') /\ acked s <= rs_last s' <= proposed s.
 Proof.
-  intros c s [hi [HP HV]] R.
+  intros c s [hi [HP HV]] R Hrp.
   unfold running in HV. rewrite R in HV. cbv iota in HV. unfold RInv in HV. rewrite R in HV.
-  destruct HV as [U [Hrd [Hap [Hsn [Hck [Hpw [Hps [Hq [Hws [Hlat Heng]]]]]]]]]].
+  destruct HV as [U [Hrd [Hap [Hsn [Hck [Hpw [Hps [Hq [Hws [Hrst [Hlat Heng]]]]]]]]]]].
   pose proof (pinv_choose _ _ HP U) as Hch.
   pose proof (p_new_in _ _ HP) as Hin.
   pose proof (p_first _ _ HP) as Hf. unfold hd_first in Hf.
@@ -178,7 +180,7 @@ Proof.
     exists [EvRcChosen m; EvRsRemoved m; EvRsCopied m; EvRcRestored m;
             EvRcReplay (N.of_nat (length (range m hi))) (last_of (range m hi)) cm].
     eexists. split; [|].
-    + cbn [run]. unfold step at 1. rewrite R, Hch, N.eqb_refl.
+    + cbn [run]. unfold step at 1. rewrite R, Hrp, Hch, N.eqb_refl.
       unfold step at 1. proj. rewrite N.eqb_refl. cbn [negb]. rewrite Hck0.
       unfold step at 1. proj. rewrite N.eqb_refl. cbn [negb]. rewrite Hck0.
       unfold step at 1. proj. rewrite N.eqb_refl. cbn [negb].
@@ -190,9 +192,39 @@ Proof.
     assert (Hm0 : m = 0) by lia. rewrite Hm0 in Ra, Hcov, Hrs.
     exists [EvRcNone; EvRcReplay (N.of_nat (length (range 0 hi))) (last_of (range 0 hi)) cm].
     eexists. split.
-    + cbn [run]. unfold step at 1. rewrite R, Hch.
+    + cbn [run]. unfold step at 1. rewrite R, Hrp, Hch.
       unfold step at 1. cbv zeta. proj. rewrite Ra, Hcov, !N.eqb_refl. cbn [negb orb]. reflexivity.
     + unfold running. proj. rewrite Hrs. rewrite Hm0.
       split; [reflexivity|]. split; [reflexivity|]. split; [reflexivity|]. split; [reflexivity|].
       split; [exact (p_acked _ _ HP) | exact (p_prop _ _ HP)].
+Qed.
+
+(* the same when the process died inside restoreFromPath (rockredis fix d2f1422): the marker file the interrupted
+   restore left makes OpenRockDB copy the checkpoint again before startRaft looks at the engine *)
+Theorem restart_succeeds : forall c s,
+  Inv c s -> rc s = RcStart ->
+  exists evs s', run c s evs = Ok s' /\ running s' = true
+    /\ applied s' = newest (segs s) /\ engine s' = Some (range 0 (newest (segs s)))
+    /\ range (applied s') (rs_last s') = range (newest (segs s)) (rs_last s') /\ acked s <= rs_last s' <= proposed s.
+Proof.
+  intros c s HI R. destruct (restore_pending s) eqn:Hrp; [|apply restart_succeeds_np; assumption].
+  unfold restore_pending in Hrp.
+  destruct (restoring s) as [i|] eqn:Rs; [|discriminate]. destruct (engine s) eqn:En; [discriminate|].
+  pose proof HI as [hi [HP HV]].
+  unfold running in HV. rewrite R in HV. cbv iota in HV. unfold RInv in HV. rewrite R in HV.
+  destruct HV as [_ [_ [_ [_ [_ [_ [_ [_ [_ [Hrst _]]]]]]]]]].
+  destruct (Hrst i Rs) as [Hi Hpos].
+  destruct (p_file _ _ HP ltac:(lia)) as [_ Hck0]. rewrite <- Hi in Hck0.
+  assert (S1 : step c s (EvRsRemoved i) = Ok (set_engine s None)).
+  { unfold step. rewrite R, Rs, N.eqb_refl. cbn [negb]. rewrite Hck0. reflexivity. }
+  assert (S2 : step c (set_engine s None) (EvRsCopied i) = Ok (set_engine (set_engine s None) (Some (range 0 i)))).
+  { unfold step. proj. rewrite R, Rs, N.eqb_refl. cbn [negb]. rewrite Hck0. reflexivity. }
+  pose proof (step_rs_removed _ _ _ _ HI S1) as HI1.
+  pose proof (step_rs_copied _ _ _ _ HI1 S2) as HI2.
+  destruct (restart_succeeds_np c _ HI2) as [evs [s' [Hrun Hrest]]].
+  - proj. exact R.
+  - unfold restore_pending. proj. rewrite Rs. reflexivity.
+  - exists (EvRsRemoved i :: EvRsCopied i :: evs), s'. split.
+    + cbn [run]. rewrite S1, S2. exact Hrun.
+    + revert Hrest. proj. auto.
 Qed.
